@@ -88,7 +88,9 @@ class Cache:
         if isinstance(arg, np.ndarray):
             tag = f"<ndarray:{arg.dtype.str}:{arg.shape}>"
             self.ahash.update(tag.encode("utf-8"))
-            self.ahash.update(arg.view(np.uint8))
+            # also works for non-contiguous and zero-dimensional arrays
+            data = np.ascontiguousarray(arg).reshape(-1)
+            self.ahash.update(data.view(np.uint8))
         elif isinstance(arg, (list, tuple)):
             tag = f"<{type(arg).__name__}:{len(arg)}>"
             self.ahash.update(tag.encode("utf-8"))
